@@ -439,6 +439,36 @@ def _cyclic_modulus(res, index):
                                 "misjudged (a hexagon reached from a quadrilateral: 5 % 4 == 1)")
 
 
+def _union_find(fn_node):
+    """a disjoint-set forest: a nested `find` that follows `parent[x]` until `parent[x] == x`, and pairs united root to root
+    (`parent[find(a)] = find(b)`, possibly through locals bound to the two roots)."""
+    finds = {}
+    for f in ast.walk(fn_node):
+        if isinstance(f, ast.FunctionDef) and f is not fn_node and len(f.args.args) == 1:
+            x = f.args.args[0].arg
+            for w in ast.walk(f):
+                if isinstance(w, ast.While) and isinstance(w.test, ast.Compare) and len(w.test.ops) == 1 and isinstance(w.test.ops[0], ast.NotEq):
+                    l_, r_ = w.test.left, w.test.comparators[0]
+                    for a_, b_ in ((l_, r_), (r_, l_)):
+                        if isinstance(a_, ast.Subscript) and isinstance(a_.value, ast.Name) and isinstance(a_.slice, ast.Name) and a_.slice.id == x \
+                                and isinstance(b_, ast.Name) and b_.id == x and any(isinstance(rt, ast.Return) for rt in ast.walk(f)):
+                            finds[f.name] = a_.value.id
+    if not finds:
+        return False
+    from ..astutil import single_assignments
+    env = single_assignments(fn_node)
+
+    def is_root(e, d=0):
+        if isinstance(e, ast.Name) and e.id in env and d < 3:
+            return is_root(env[e.id], d + 1)
+        return isinstance(e, ast.Call) and isinstance(e.func, ast.Name) and e.func.id in finds
+    for n in ast.walk(fn_node):
+        if isinstance(n, ast.Assign) and len(n.targets) == 1 and isinstance(n.targets[0], ast.Subscript) and isinstance(n.targets[0].value, ast.Name) \
+                and n.targets[0].value.id in finds.values() and is_root(n.targets[0].slice) and is_root(n.value):
+            return True
+    return False
+
+
 def _merge_grouping(res, index):
     """MRG-1: faces are merged by groups that are closed under the pair relation 'neighbours with the same plane' - connected
     components (scipy) or a union-find.  A single pass that lets one face inherit the label of the other (`labels[j] = labels[i]`)
@@ -463,6 +493,8 @@ def _merge_grouping(res, index):
         if src is not None and not str(src[0]).startswith("scipy.sparse.csgraph"):
             raise AnalysisError("MRG-1: connected_components is not scipy's")
         res.ok("MRG-1", key, sample={"grouping": "scipy.sparse.csgraph.connected_components of the pair graph"})
+    elif _union_find(fn.node):
+        res.ok("MRG-1", key, sample={"grouping": "union-find over the mergeable pairs (roots united, labels read through find)"})
     elif inherit and not has_find:
         n = inherit[0]
         res.bad("MRG-1", key + ":one-pass-labels", f"{fn.file}:{n.lineno}", f"Polyhedron.merge_faces groups the faces by `{ast.unparse(n)[:50]}` in one pass over the "
